@@ -1240,3 +1240,31 @@ benign_patch("refactor_s6_12", "benign/set6_refactor12.diff", note='DB::get: Opt
 benign_patch("refactor_s6_13", "benign/set6_refactor13.diff", note='Drop for DB: while -> loop/break')
 benign_patch("refactor_s6_14", "benign/set6_refactor14.diff", note='coordinate_compaction: if let Some; local')
 benign_patch("refactor_s6_15", "benign/set6_refactor15.diff", note='destroy_database: map_err(..)?; lock path local reused')
+
+# ---- FS-1
+mut("mem_fs_append_keeps_cursor", ["C01", "C02", "C12", "C16"], "FS-1", patch="mem_fs_append_keeps_cursor.diff",
+    note="InMemoryFileSystem::create_file(append=true) no longer moves the cursor to the end: a re-used manifest is overwritten from its start")
+mut("disk_fs_create_never_truncates", ["C12", "C02"], "FS-1", file="src/fs/fs_disk.rs",
+    old="""        if append {
+            open_options.append(true);
+        } else {
+            open_options.truncate(true);
+        }
+
+        let file = open_options.open(path)?;""",
+    new="""        if append {
+            open_options.append(true);
+        }
+
+        let file = open_options.open(path)?;""")
+benign("disk_fs_modes_from_flag", ["C12", "C02", "C16", "C01"], "src/fs/fs_disk.rs",
+    old="""        if append {
+            open_options.append(true);
+        } else {
+            open_options.truncate(true);
+        }
+
+        let file = open_options.open(path)?;""",
+    new="""        open_options.append(append).truncate(!append);
+
+        let file = open_options.open(path)?;""")
